@@ -65,10 +65,12 @@ inductive Key where
   | lit (v : Val)             -- `Key.Literal(v)`
   deriving Repr, Inhabited
 
-/-- an element of `output_keys`: a key, or a dict `{new_name: key_into_the_output}` -/
+/-- an element of `output_keys`: a key, or a dict `{record_key: key_into_the_output}`.  The record
+key (the place that is written) is any key — a bare string, a `Key` path, `SELF` …; the value (the
+place that is read in the function's output) is unrelated to it. -/
 inductive OutKey where
   | key (k : Key)
-  | dict (items : List (String × Key))
+  | dict (items : List (Key × Key))
   deriving Repr, Inhabited
 
 def Key.isSelf : Key → Bool
@@ -257,10 +259,11 @@ def normOuts (op : Op) (v : Val) : List Val :=
 def normalizeOutputs (op : Op) (v : Val) : Except ErrKind (List Val) :=
   if op.outKeys.isEmpty && !f9Fixed then .error .index else .ok (normOuts op v)
 
-/-- `TreeMapView(data).copy_and_set(tuple(names), values)` for the names of a dict output key -/
-def setNames (tree : Val) : List String → List Val → Except ErrKind Val
+/-- `TreeMapView(data).copy_and_set(tuple(keys.keys()), values)` for the record keys of a dict output
+key (tree.py:512–528: one `_set_by_path` per key, in order) -/
+def setNames (tree : Val) : List Key → List Val → Except ErrKind Val
   | [], [] => .ok tree
-  | n :: ns, v :: vs => do let t ← setPath tree [.name n] v; setNames t ns vs
+  | n :: ns, v :: vs => do let t ← setKey tree n v; setNames t ns vs
   | _, _ => .error .value
 
 /-- the body of the `for keys, output in zip(self.output_keys, outputs, strict=True)` loop -/
@@ -874,20 +877,24 @@ def OutSpec.normalize : OutSpec → List OutKey
 def InSpec.asOut : InSpec → OutSpec
   | .single k => .single (.key k)
   | .many ks => .many (ks.map .key)
-  | .kwargs items => .single (.dict items)
+  | .kwargs items => .single (.dict (items.map fun (n, k) => (Key.name n, k)))
 
 def InSpec.isEmpty : InSpec → Bool
   | .many [] => true
   | .kwargs [] => true
   | _ => false
 
-/-- Python falsiness of what the user passed (`assign_keys or output_keys`, `output_keys or
-input_keys`): an empty tuple, an empty dict — and `Key.Index(0)`, which is the int `0` -/
+/-- When `true` the repaired builder is modelled (`transform._no_keys`, finding F-C08-index0):
+`Key.Index(0)` (the int `0`) and `''` are keys; the unrepaired `assign_keys or output_keys` /
+`output_keys or input_keys` treated them as "no key given". -/
+def index0Fixed : Bool := true
+
+/-- "no key was given" (`transform._no_keys`): an empty tuple, an empty dict -/
 def OutSpec.isEmpty : OutSpec → Bool
   | .many [] => true
   | .single (.dict []) => true
-  | .single (.key (.index 0)) => true
-  | .single (.key (.name "")) => true
+  | .single (.key (.index 0)) => !index0Fixed
+  | .single (.key (.name "")) => !index0Fixed
   | _ => false
 
 /-- one builder call -/
@@ -914,11 +921,12 @@ def keyEq : Key → Key → Bool
 def insertKey (k : Key) (ks : List Key) : List Key :=
   if ks.any (keyEq k) then ks else ks ++ [k]
 
-/-- `itertools.chain(non_dict_keys, *dict_keys)`: a dict output key contributes its names -/
+/-- `itertools.chain(non_dict_keys, *dict_keys)`: a dict output key contributes its *keys* — the
+record keys that are written — never its values (the names read in the function's output) -/
 def flatKeys : List OutKey → List Key
   | [] => []
   | .key k :: rest => k :: flatKeys rest
-  | .dict items :: rest => items.map (fun (n, _) => Key.name n) ++ flatKeys rest
+  | .dict items :: rest => items.map (·.1) ++ flatKeys rest
 
 /-- `TreeTransform.output_keys` (transform.py:905–922, repaired): the keys that exist after the
 operators so far; `apply` and `select` replace the record and start afresh, a sink contributes
@@ -967,7 +975,7 @@ def St.add (st : St) (fn : Op) : Except ErrKind St :=
 
 def step (st : St) : Spec → Except ErrKind St
   | .select input output batch => do
-    -- `output_keys = output_keys or input_keys`
+    -- `if _no_keys(output_keys): output_keys = input_keys`
     let out := match output with
       | some o => if o.isEmpty then input.asOut else o
       | none => input.asOut
@@ -977,7 +985,7 @@ def step (st : St) : Spec → Except ErrKind St
     let fn ← mkTreeFn .apply fn s0 input output.normalize fnBatch batch
     st.add fn
   | .assign keys fn s0 input fnBatch batch => do
-    -- `assign_keys = assign_keys or output_keys` (transform.py:981): a falsy key spec becomes `()`
+    -- `if _no_keys(assign_keys): assign_keys = output_keys` (= `()`)
     let keys := if keys.isEmpty then OutSpec.many [] else keys
     let fn ← mkTreeFn .assign fn s0 input keys.normalize fnBatch batch
     if fn.outKeys.isEmpty then throw .value                            -- 'Assign should have output_keys'
